@@ -394,7 +394,8 @@ class C01(MotionMonitor):
                (1.5, "g90-influences-extruder", mk(rel=True, arcs=True, at=True, g90e=True)),
                (1, "g90-influences-extruder-inch", mk(rel=True, inch=True, g90e=True, p_inside=0.5)),
                (1, "firmware-unmatched", mk(fw=True, fw_stray=True, p_inside=0.5)),
-               (1, "arcs-under-g91-inch", mk(rel=True, inch=True, arcs=True, arcs_rel=True, p_arc=0.1, start_rel=0.5))]
+               (1, "arcs-under-g91-inch", mk(rel=True, inch=True, arcs=True, arcs_rel=True, p_arc=0.1, start_rel=0.5)),
+               (1.5, "spelled-arcs", mk(arcs=True, spell=True, p_arc=0.25, p_inside=0.5))]
 
     def settings_for(self, rnd, feats):
         s = MotionMonitor.settings_for(self, rnd, feats)
